@@ -285,6 +285,11 @@ class Future(BaseFuture):
         if isinstance(other, str):
             other = parse_register(other)
 
+        if isinstance(other, RegFuture):
+            # a register outcome is an `int` on the host, but here its register is meant
+            assert other.reg is not None, "Trying to use RegFuture that has no value yet"
+            other = other.reg
+
         # Store self in a temporary register
         tmp_register = self.builder._mem_mgr.get_inactive_register(activate=True)
         load_commands = self.get_load_commands(tmp_register)
@@ -459,6 +464,11 @@ class RegFuture(BaseFuture):
         assert self.reg is not None
         if isinstance(other, str):
             other = parse_register(other)
+
+        if isinstance(other, RegFuture):
+            # a register outcome is an `int` on the host, but here its register is meant
+            assert other.reg is not None, "Trying to use RegFuture that has no value yet"
+            other = other.reg
 
         # Store self in a temporary register
         load_commands = []
